@@ -15,8 +15,8 @@ i = s.index("### 0.7 Seeded property-breaking changes")
 j = s.index("### 0.8 Behaviour-preserving rewrites")
 new = f'''### 0.7 Seeded property-breaking changes and the checks that catch them
 
-{len(rows)} changes written by fresh sub-agents that saw only one property's text and a scratch worktree, in seven rounds
-(`seeded/Cxx`, `Cxxb` … `Cxxg`). Round two was told what round one had done and asked for a different clause / site /
+{len(rows)} changes written by fresh sub-agents that saw only one property's text and a scratch worktree, in eight rounds
+(`seeded/Cxx`, `Cxxb` … `Cxxh`; `C20g` was dropped again: it makes the repository's own MCMC test fail in some runs). Round two was told what round one had done and asked for a different clause / site /
 trigger; every later round was shown what all earlier ones need in order to manifest and was given a theme: round three the
 **glue** (construction paths and entry points, parameter handling and defaults, helper modules such as the motif generators,
 representation conversions, behaviour after several calls on one object); round four **boundaries and numerics**
@@ -25,8 +25,10 @@ arithmetic and overflow, ordering and tie-breaking); round five **domain confusi
 motifs vs edges, index vs id vs size, edges vs edge ends, ordered vs unordered pairs, probability vs complement, a formula
 outside the case it was derived for); round six **names and labels, iteration order, error handling, repeated use**; round seven **types and containers, scale, copies**
 (NumPy integers and arrays where Python ints / tuples / lists are usual, iterators for sequences, equal-but-distinct objects,
-falsy labels, counts beyond 256 / 1024 / 10^6, in-place updates of aliased values).
-Each was confirmed here in a scratch worktree (compiles, repository tests of the touched area pass, `demo.py` exits 0 on the
+falsy labels, counts beyond 256 / 1024 / 10^6, in-place updates of aliased values); round eight **optimisation refactors, global and
+shared state, API evolution** (too-eager early exits and hoisted values, class-level attributes shared between objects,
+re-entrancy from callbacks, setters that do not invalidate, silent normalisation of legal input).
+Each was confirmed here in a scratch worktree (compiles, the whole pinned test suite of 47 tests passes — `tools/seed_tests.py` —, `demo.py` exits 0 on the
 unchanged tree and 1 with the change) and is kept as `seeded/<id>/{{patch.diff,demo.py,meta.json}}`. `tools/regress.py` applies
 every one of them to a scratch worktree and runs the quick check of the property it breaks: **{len(rows)} of {len(rows)} exit 1 with
 a VIOLATION line**, all but the C12 ones with a shrunk counter-example on the real code from the ordinary run (seed 0; for
@@ -37,7 +39,9 @@ strengthenings named in the last column — mostly richer generators (inputs the
 columns, unused columns, tuple-valued callbacks, library-built cycles, large or shuffled clique sizes, mixed-topology motifs,
 list annotations, multigraphs, exact zeros, parameters at the ends of their ranges; in round seven, where 16 of 20 were missed
 at first, equivalent *representations* of the same input: NumPy-typed degrees, keys, bounds and annotations, array-valued
-arguments, iterator-valued callbacks, separately created name / root objects, label 0, and a few large instances), twice a sharper observation (C03: motifs
+arguments, iterator-valued callbacks, separately created name / root objects, label 0, and a few large instances; in round eight (11 of 20 missed) *histories across objects and calls*: a second object of the
+same class, a distribution / cover / target replaced or edited after construction, a builder that re-enters the generator,
+evaluation in another order), twice a sharper observation (C03: motifs
 as built, not only callback inputs; C13: the network must be untouched by the extraction).
 
 ''' + "\n".join(out) + "\n\n"
